@@ -55,14 +55,17 @@ CLAIMED = {
         design_ref="DESIGN.md §5 C08"),
     "C09": dict(
         engine="X",
-        technique="CrossHair symbolic execution of the real SimpleBatcher / subdivide_batches / generate_batches with symbolic sizes, ratios and a solver-chosen permutation stub",
+        engine_override="X+S",
+        technique="CrossHair symbolic execution of the real SimpleBatcher / subdivide_batches / generate_batches with symbolic sizes, ratios and a solver-chosen permutation stub; term-valued symbolic execution of the real error_estimate (z3) for batch-mean == full-batch loss",
         text=("bounded model checking of the scheduling structure: for every n <= 7 (quick) / 9, batch size, validation ratio on "
               "the p/20 grid, split mode, shuffle flag and permutation choice the yielded batches are an exact partition of the "
               "training set, train/val are disjoint and covering and the reported counts equal the numbers yielded; "
-              "subdivide_batches/generate_batches for all n <= 40, max_batch <= 45 with unrealised symbolic ints"),
+              "subdivide_batches/generate_batches for all n <= 40, max_batch <= 45 with unrealised symbolic ints; for symbolic predictions, targets, "
+              "detector mask and mean intensity the mean of the per-batch losses equals the full-batch loss for every divisor of the "
+              "pattern count and all four l1/l2 x amplitude/intensity losses"),
         note=("trusts CrossHair/z3; the generator is a stub constrained by Generator.permutation's contract; bit-level seeded "
-              "determinism and autograd gradient equality are outside the claim; batch-mean == full-batch loss is decided by "
-              "the engine-S stage when present (see evidence)"),
+              "determinism (seed C09_m2 is missed) is outside the claim; gradient equality follows from the decided loss identity by "
+              "linearity of differentiation (stated, not queried)"),
         design_ref="DESIGN.md §5 C09"),
     "C10": dict(
         engine="S",
@@ -208,7 +211,7 @@ def main():
             thorough_cmd=f"./run {pid} --tier thorough",
             evidence_file=f"/verif/evidence/{pid}.json",
             replay_cmd_template=f"./run {pid} --replay {{path}}",
-            engine=c["engine"],
+            engine=c.get("engine_override", c["engine"]),
             level_claimed=dict(category="model_checking", text=c["text"], design_ref=c["design_ref"]),
             level_note=c["note"],
             technique=c["technique"],
